@@ -1,166 +1,7 @@
 #!/usr/bin/env python3
-"""Whole-package behaviour-preserving transformations; every check must stay silent.
-
-  roundtrip : ast.unparse of every module (drops comments / layout / quoting)
-  rename    : every function-local variable (not parameters, not names used by nested
-              scopes, not globals) gets a new name
-  both      : rename, then roundtrip
-usage: benign_variants.py <kind> <outdir>
-"""
-import ast
+"""usage: benign_variants.py <roundtrip|rename|both|private|all> <outdir>   (see bistat/variants.py)"""
 import os
-import shutil
-import symtable
 import sys
-
-REPO = '/repo'
-
-
-def roundtrip(src):
-    return ast.unparse(ast.parse(src)) + '\n'
-
-
-class Renamer(ast.NodeTransformer):
-    def __init__(self, src, fname):
-        self.table = symtable.symtable(src, fname, 'exec')
-        self.stack = []
-
-    def _locals(self, node, tab):
-        names = set()
-        for s in tab.get_symbols():
-            if s.is_local() and not s.is_parameter() and not s.is_global() and not s.is_free() and not s.is_imported():
-                # skip names captured by nested scopes (cells) and nested function / class names
-                if s.is_namespace():
-                    continue
-                names.add(s.get_name())
-        # names referenced free in children stay
-        for ch in tab.get_children():
-            for s in ch.get_symbols():
-                if s.is_free():
-                    names.discard(s.get_name())
-            for gch in ch.get_children():
-                for s in gch.get_symbols():
-                    if s.is_free():
-                        names.discard(s.get_name())
-        return names
-
-    def _find(self, tab, node):
-        for ch in tab.get_children():
-            if ch.get_name() == getattr(node, 'name', '<lambda>') and ch.get_lineno() == node.lineno:
-                return ch
-        return None
-
-    def visit_FunctionDef(self, node):
-        parent = self.stack[-1][0] if self.stack else self.table
-        tab = self._find(parent, node)
-        if tab is None:
-            return node
-        names = self._locals(node, tab) if tab.get_type() == 'function' else set()
-        names -= {'_'}
-        self.stack.append((tab, names))
-        node.body = [self.visit(s) for s in node.body]
-        self.stack.pop()
-        return node
-
-    def visit_ClassDef(self, node):
-        parent = self.stack[-1][0] if self.stack else self.table
-        tab = self._find(parent, node)
-        if tab is None:
-            return node
-        self.stack.append((tab, set()))
-        node.body = [self.visit(s) for s in node.body]
-        self.stack.pop()
-        return node
-
-    def visit_Lambda(self, node):
-        return node          # leave lambdas (their bodies only see params / outer names kept above)
-
-    def visit_ListComp(self, node): return node
-    def visit_SetComp(self, node): return node
-    def visit_DictComp(self, node): return node
-    def visit_GeneratorExp(self, node): return node
-
-    def visit_Name(self, node):
-        if self.stack and node.id in self.stack[-1][1]:
-            node.id = 'lv_' + node.id
-        return node
-
-    def visit_ExceptHandler(self, node):
-        if self.stack and node.name and node.name in self.stack[-1][1]:
-            node.name = 'lv_' + node.name
-        self.generic_visit(node)
-        return node
-
-
-def rename(src, fname):
-    tree = ast.parse(src)
-    # a local used inside a comprehension / lambda of the same function must keep its name
-    tree2 = Renamer(src, fname).visit(tree)
-    return ast.unparse(tree2) + '\n'
-
-
-def uses_in_inner_scopes(func):
-    names = set()
-    for n in ast.walk(func):
-        if isinstance(n, (ast.Lambda, ast.ListComp, ast.SetComp, ast.DictComp, ast.GeneratorExp)):
-            for x in ast.walk(n):
-                if isinstance(x, ast.Name):
-                    names.add(x.id)
-    return names
-
-
-PRIVATE_PREFIXES = ('_unpack_', '_pack_', '_clone_from_', '_lets_find', '_defer_', '_search_buffer')
-
-
-def rename_private(src):
-    """rename private helper methods / attributes (strategy implementations, clone helpers...)
-    consistently across the package: definitions, attribute references, names and equal strings"""
-    tree = ast.parse(src)
-    for n in ast.walk(tree):
-        if isinstance(n, ast.FunctionDef) and n.name.startswith(PRIVATE_PREFIXES):
-            n.name = n.name + '_rn'
-        elif isinstance(n, ast.Attribute) and n.attr.startswith(PRIVATE_PREFIXES):
-            n.attr = n.attr + '_rn'
-        elif isinstance(n, ast.Name) and n.id.startswith(PRIVATE_PREFIXES):
-            n.id = n.id + '_rn'
-        elif isinstance(n, ast.Constant) and isinstance(n.value, str) and n.value.startswith(PRIVATE_PREFIXES) and n.value.isidentifier():
-            n.value = n.value + '_rn'
-    return ast.unparse(tree) + '\n'
-
-
-def main():
-    kind, out = sys.argv[1], sys.argv[2]
-    shutil.rmtree(out, ignore_errors=True)
-    shutil.copytree(os.path.join(REPO, 'bisturi'), os.path.join(out, 'bisturi'), ignore=shutil.ignore_patterns('__pycache__', '__pkts__'))
-    for fn in sorted(os.listdir(os.path.join(out, 'bisturi'))):
-        if not fn.endswith('.py'):
-            continue
-        p = os.path.join(out, 'bisturi', fn)
-        src = open(p).read()
-        if kind in ('rename', 'both', 'all'):
-            # protect names used in inner scopes: the symtable pass handles free variables of
-            # nested defs; comprehensions / lambdas are left untouched, so any local they read
-            # must not be renamed -> post-filter by a second pass
-            tree = ast.parse(src)
-            keep = set()
-            for f in ast.walk(tree):
-                if isinstance(f, (ast.FunctionDef,)):
-                    keep |= uses_in_inner_scopes(f)
-            r = Renamer(src, fn)
-            orig_locals = r._locals
-
-            def filtered(node, tab, _o=orig_locals):
-                return _o(node, tab) - keep
-            r._locals = filtered
-            src = ast.unparse(r.visit(tree)) + '\n'
-        if kind in ('private', 'all'):
-            src = rename_private(src)
-        if kind in ('roundtrip', 'both', 'all'):
-            src = roundtrip(src)
-        compile(src, fn, 'exec')
-        open(p, 'w').write(src)
-    print('variant', kind, 'written to', out)
-
-
-if __name__ == '__main__':
-    main()
+sys.path.insert(0, os.path.dirname(os.path.dirname(os.path.abspath(__file__))))
+from bistat.variants import main
+main()
